@@ -606,13 +606,19 @@ pub fn specials(e: Elem) -> Vec<u64> {
     match e {
         Elem::Bool => vec![0, 1],
         Elem::F32 => vec![0x0000_0000, 0x8000_0000, 0x3F80_0000, 0xBF80_0000, 0x7FC0_0000, 0x7FC0_1234, 0x7FA0_0001, 0x7F80_0000, 0xFF80_0000,
-                          0x7F7F_FFFF, 0x0000_0001, 0x3F80_0001],
+                          0x7F7F_FFFF, 0x0000_0001, 0x3F80_0001,
+                          // 0.1 (full mantissa), negative NaN with high payload bits, largest negative subnormal
+                          0x3DCC_CCCD, 0xFFD5_5555, 0x807F_FFFF],
         Elem::F64 => vec![0x0000_0000_0000_0000, 0x8000_0000_0000_0000, 0x3FF0_0000_0000_0000, 0xBFF0_0000_0000_0000, 0x7FF8_0000_0000_0000,
                           0x7FF8_0000_0000_1234, 0x7FF4_0000_0000_0001, 0x7FF0_0000_0000_0000, 0xFFF0_0000_0000_0000, 0x7FEF_FFFF_FFFF_FFFF,
-                          0x0000_0000_0000_0001, 0x3FF0_0000_0000_0001],
+                          0x0000_0000_0000_0001, 0x3FF0_0000_0000_0001,
+                          0x3FB9_9999_9999_999A, 0xFFFD_5555_5555_5555, 0x800F_FFFF_FFFF_FFFF],
         _ => {
             let mut r = Rng::new(0, "specials", 0);
-            (0..6).map(|i| gen_scalar_bits(e, &mut r, Cls::Lattice(i))).collect()
+            let mut v: Vec<u64> = (0..6).map(|i| gen_scalar_bits(e, &mut r, Cls::Lattice(i))).collect();
+            // two fixed patterns with every byte in use
+            v.extend((0..2).map(|_| gen_scalar_bits(e, &mut r, Cls::RandomBits)));
+            v
         }
     }
 }
@@ -674,14 +680,20 @@ pub fn gen_history<T: Paths + MixedCtor>(seed: u64, ti: usize, hi: u64, with_fau
     // mostly values unique within the history; now and then an edge value, so that writes of +0 over -0,
     // NaN over NaN, MIN over MAX ... occur (a write that is skipped when old == new compares by value)
     let edge_rate = rng.below(4); // of 16
+    let rand_rate = rng.below(7); // of 16
     let mut vrng = Rng::new(seed, "c17-values", (ti as u64) << 40 | hi);
     let mut next = |k: usize| -> Vec<u64> {
         (0..k)
             .map(|_| {
                 ctr += 1;
-                if vrng.below(16) < edge_rate {
+                let d = vrng.below(16);
+                if d < edge_rate {
                     let s = specials(e);
                     s[vrng.below(s.len())]
+                } else if d < edge_rate + rand_rate {
+                    // any bit pattern: full mantissas, high NaN payload bits, negative subnormals, integers with all
+                    // bytes in use - a path that detours through a narrower representation is lossy only there
+                    gen_scalar_bits(e, &mut vrng, Cls::RandomBits)
                 } else {
                     uniq(e, ctr)
                 }
